@@ -292,6 +292,14 @@ theorem gov_escrow_spend_halts_unguarded :
 theorem gov_escrow_self_deposit_halts_unguarded :
     (run { addDepositRefusesGov := false, passChecksEscrow := false } [.deposit 1 10000, .deposit 2 1000, .pass 1 [.govDeposit 2 500], .settle 2] init).halted = true := by decide
 
+/-- obligation over the regenerated `case passes:` of gov.EndBlocker: nothing but the classified statements (cache context, message
+list, message loop, the escrow check on the cache, `if err == nil { … writeCache() … } else { FAILED }`), and the only `writeCache()` sits
+inside that `if`, after the message loop — what `passMsgs` models as "discard on failure" -/
+theorem pass_branch_code_facts :
+    FxVerif.Gen.C07.govPassBranch.all (fun w => ["cache", "getMsgs", "getMsgsFail", "msgLoop", "commitIfOk", "check:DepositsCovered"].contains w) = true ∧
+      comesBefore "cache" "msgLoop" FxVerif.Gen.C07.govPassBranch = true ∧
+      comesBefore "msgLoop" "commitIfOk" FxVerif.Gen.C07.govPassBranch = true := by decide
+
 /-- obligation over the regenerated order of the tallied-proposal callback: the deposits are refunded / burned (unless an
 expedited proposal is converted) BEFORE the outcome switch runs the messages -/
 theorem settle_order_code_facts : govEscrowCode.settleBeforeMsgs = true := by decide
